@@ -28,6 +28,7 @@ const (
 	nodeName     = "verif-node"
 	stormMax     = 40000           // burst lines per scenario at most
 	stormBound   = 3 * time.Second // ... and no longer than this
+	restartGrace = 5 * time.Second // writer-restart episode: a daemon that still holds the sshd pipe open this long after its writer closed is taken to go on
 )
 
 func repoDir() string {
@@ -57,6 +58,10 @@ type runResult struct {
 	Storm      int    // lines of the sshd burst written (large-event scenarios)
 	Sync       string // how completeness of the output was established: sentinel | quiescence | bound
 	Millis     int64
+	// writer-restart episode (reader.go): "" = none, "ended" = the daemon ended when the writer of the sshd pipe closed (a legitimate
+	// end of the scenario), "survived" = it was still there and a new writer's records were processed up to the second sentinel
+	Restart  string
+	Survived bool
 }
 
 // runScenario starts one daemon process on two fresh FIFOs, feeds the scenario, collects the output file.
@@ -342,6 +347,97 @@ func runScenario(bin, dir string, sc *scenario) (res runResult) {
 		return fail("harness:daemon-died", "the daemon exited on its own after the history was fed | stderr: "+tail())
 	}
 	waitQuiet(finalQuiet, collectBound)
+
+	// ---- the writer of the sshd pipe goes away in the middle of a record (reader.go)
+	if rp := sc.Restart; rp != nil {
+		ended := func() runResult {
+			res.Restart = "ended"
+			res.Output = readOut()
+			return res
+		}
+		if _, err := sshdW.WriteString(rp.Partial); err != nil {
+			return fail("harness:daemon-died", "writing the unterminated record failed: "+err.Error()+" | stderr: "+tail())
+		}
+		sshdW.Close()
+		sshdW = nil
+		// a daemon that takes end-of-stream as a failure ends now: it closes its end of the pipe (observed: a non-blocking
+		// open for writing finds no reader, ENXIO) and exits.  How long that takes is not judged here (C08 does); only a
+		// daemon that still holds the pipe open after restartGrace is treated as one that goes on, and gets the next writer.
+		// (A probe that succeeds is a writer for a moment; closing it re-establishes the hang-up for a reader that had not
+		// looked yet.)
+		readerGone := false
+		for deadline := time.Now().Add(restartGrace); time.Now().Before(deadline) && !readerGone; {
+			select {
+			case <-exited:
+				hasExited = true
+				return ended()
+			case <-time.After(5 * time.Millisecond):
+			}
+			pf, perr := os.OpenFile(sshdPath, os.O_WRONLY|syscall.O_NONBLOCK, 0)
+			if perr == nil {
+				pf.Close()
+			} else if errors.Is(perr, syscall.ENXIO) {
+				readerGone = true
+			}
+		}
+		if readerGone {
+			// on its way out; if it is still there after the bound, the ordinary end of a scenario follows (SIGTERM, exit within the bound)
+			select {
+			case <-exited:
+				hasExited = true
+				return ended()
+			case <-time.After(exitBound):
+			}
+			res.Restart = "reader-closed"
+		} else {
+			w2, err := openW(sshdPath)
+			if err != nil {
+				if hasExited || died() {
+					return ended()
+				}
+				res.Output = readOut()
+				return fail("harness:daemon-stalled", "after the writer of the sshd pipe had closed in mid-record the daemon neither ended nor let a new writer open the pipe: "+err.Error()+" | stderr: "+tail())
+			}
+			sshdW = w2
+			sent2Login := fmt.Sprintf("%d Accepted password for %s from 192.0.2.2 port 22 ssh2\n", sentinel2PID, sentinel2User)
+			sent2Audit := fmt.Sprintf("type=LOGIN msg=audit(1699999999.998:998): pid=%d uid=0 old-auid=4294967295 auid=1000 tty=(none) old-ses=4294967295 ses=%d res=1\n", sentinel2PID, sentinel2Ses)
+			if _, err := sshdW.WriteString(rp.After + sent2Login); err != nil {
+				if died() {
+					return ended()
+				}
+				select { // EPIPE: the reader is gone, the daemon is on its way out
+				case <-exited:
+					hasExited = true
+					return ended()
+				case <-time.After(exitBound):
+				}
+				res.Output = readOut()
+				return fail("harness:daemon-stalled", "the new writer of the sshd pipe could not write ("+err.Error()+") and the daemon did not end | stderr: "+tail())
+			}
+			how := waitMark([]byte(`"loggedAs":"` + sentinel2User + `"`))
+			if how == "sentinel" {
+				if _, err := auditW.WriteString(sent2Audit); err == nil {
+					how = waitMark([]byte(fmt.Sprintf(`"auditId":"%d"`, sentinel2Ses)))
+				} else {
+					how = "died"
+				}
+			}
+			if how == "died" || died() {
+				return ended()
+			}
+			res.Restart, res.Survived = "survived", true
+			if how != "sentinel" {
+				// alive, but what the new writer wrote was not processed: neither of the two behaviours
+				res.Sync = how
+				res.Output = readOut()
+				_ = cmd.Process.Kill()
+				<-exited
+				hasExited = true
+				return fail("harness:daemon-stalled", "after the writer of the sshd pipe had closed in mid-record the daemon kept running but did not process what the next writer wrote (second sentinel not seen: "+how+") | stderr: "+tail())
+			}
+			waitQuiet(finalQuiet, collectBound)
+		}
+	}
 
 	// both writers are still open (EOF on a pipe is a failure for the daemon by design): SIGTERM, wait, read
 	_ = cmd.Process.Signal(syscall.SIGTERM)
